@@ -197,12 +197,13 @@ class KGLambda:
 
     def _get_pos_args(self, ctx):
         if self._wildcard:
+            # only the arguments of this call: an x, y or z of an enclosing call must not be picked up
+            frame = ctx._context[0] if hasattr(ctx, '_context') else ctx
             pos_args = []
             for sym in reserved_fn_symbols:
-                try:
-                    pos_args.append(ctx[sym])
-                except KeyError:
+                if sym not in frame:
                     break
+                pos_args.append(frame[sym])
         else:
             pos_args = [ctx[x] for x in self.args]
         return pos_args
